@@ -47,7 +47,7 @@ func (f *VectorPop) Call(s *slip.Scope, args slip.List, depth int) slip.Object {
 	if fp < 0 {
 		slip.TypePanic(s, depth, "vector", v, "vector with a fill-pointer.")
 	}
-	if fp == 0 || v.Length() <= fp {
+	if fp == 0 || v.Length() < fp {
 		slip.ErrorPanic(s, depth, "There is nothing left to pop.")
 	}
 	return v.Pop()
